@@ -484,6 +484,12 @@ def rule_condspec(ctx, prop: str) -> RuleResult:
          "unroll_buffer creates one scalar per index: the dimension must be a literal"),
         (("C01",), S_, "DoStageMem", "reject", "len(w_exprs)", "len(w_exprs) == len(buf_typ.shape())", ("w_exprs", "buf_typ"), None,
          "stage_mem: the window must give one coordinate per dimension of the buffer"),
+        (("C02", "C19"), "src/exo/backend/LoopIR_compiler.py", "Compiler.__init__", "accept", "StrideExpr",
+         "isinstance(pred, LoopIR.BinOp) and pred.op == '==' and isinstance(pred.lhs, LoopIR.StrideExpr) and isinstance(pred.rhs, LoopIR.Const)", ("pred",), None,
+         "only an assertion `stride(A, d) == c` lets the compiler replace A.strides[d] by the constant c; with any other comparison (`stride(A, 0) >= 8`, as add_assertion may add) "
+         "the generated C addresses every admissible input of larger stride wrongly"),
+        (("C12", "C04"), S_, "DoSimplify.add_fact", "accept", "'/'", "isinstance(expr, LoopIR.BinOp) and expr.op == '/' and const.val == 0", ("expr", "const"), None,
+         "inside `if X / M == c` the fact `X % M == X` holds only for c == 0; recorded for other c, simplify replaces `n % 8` by `n` under `if n / 8 == 1` and a tail loop runs out of bounds"),
         (("C10", "C01"), NE_, "stmts_effs", "accept", "LoopIR.Read", "fa.type.is_numeric() and isinstance(a, LoopIR.Read)", ("fa", "a"), "pass",
          "only a numeric buffer argument (passed by reference: the callee's own accesses are translated to it) may be skipped when the reads of a call are "
          "collected; a configuration field passed as an argument is a read of that field — without it delete_config/write_config/call_eqv consider the field unread"),
